@@ -57,6 +57,13 @@ static std::string call(const std::string& key, const Integer& n) {
         for (size_t i = 0; i < Lf.size(); ++i) s += " " + hz(Lf[i]) + " " + vp::hex_ull(i < Lo.size() ? Lo[i] : 0);
         return s;
     }
+    if (key == "set1") {
+        std::vector<Integer> Lf;
+        IF.set(Lf, n);
+        std::string s = vp::hex_ull(Lf.size());
+        for (size_t i = 0; i < Lf.size(); ++i) s += " " + hz(Lf[i]);
+        return s;
+    }
     if (key == "divisors") {
         std::list<Integer> Lf; std::vector<unsigned long> Lo;
         IF.set(Lf, Lo, n);
@@ -96,6 +103,29 @@ static void run(const std::string& key, const Integer& n) {
         armed = 0;
         alarm(0);
         put(key, n, why == 2 ? "SIGNAL" : "TIMEOUT");
+        fflush(stdout);
+    }
+}
+
+// set(Lf, Lo, n, loops) with a bound on the rho iterations: "setl <n> <loops> = <complete> <k> f1 e1 …"
+static void run_setl(const Integer& n, unsigned long loops) {
+    IntFactorDom<GivRandom>& IF = *IFp;
+    std::string head = "setl " + hz(n) + " " + vp::hex_ull(loops) + " = ";
+    int why = sigsetjmp(JB, 1);
+    if (why == 0) {
+        armed = 1;
+        alarm(CASE_TIMEOUT);
+        std::vector<Integer> Lf; std::vector<unsigned long> Lo;
+        bool c = IF.set(Lf, Lo, n, loops);
+        alarm(0);
+        armed = 0;
+        std::string s = std::string(c ? "1" : "0") + " " + vp::hex_ull(Lf.size());
+        for (size_t i = 0; i < Lf.size(); ++i) s += " " + hz(Lf[i]) + " " + vp::hex_ull(i < Lo.size() ? Lo[i] : 0);
+        fputs((head + s + "\n").c_str(), stdout);
+    } else {
+        armed = 0;
+        alarm(0);
+        fputs((head + (why == 2 ? "SIGNAL" : "TIMEOUT") + "\n").c_str(), stdout);
         fflush(stdout);
     }
 }
@@ -204,7 +234,11 @@ static void gen(const std::string& tier, uint64_t seed) {
         run("iffactorprime", n);
         if (n != 1) run("primefactor", n);      // primefactor(1) has no answer: `while (iffactorprime(r,1)==1 && !isprime(1)) {}` (reported separately)
         run("divisors", n);
+        run("set1", n);
     }
+    // the loops-bounded variant: small bounds make Pollard give up (partial contract), large ones complete
+    for (size_t i = 0; i < fa.size(); i += (th ? 3 : 11))
+        for (unsigned long loops : {1UL, 2UL, 3UL, 7UL, 40UL, 5000UL}) run_setl(fa[i], loops);
     fflush(stdout);
     // ---- prime-power test
     std::vector<Integer> pp;
@@ -242,6 +276,7 @@ int main(int argc, char** argv) {
     while (vp::read_line(std::cin, a)) {
         if (a.tok[0] == "p16count") { run("p16count", Integer(0)); continue; }
         if (a.tok.size() < 2) { vp::emit(a, "NOFUNC"); continue; }
+        if (a.tok[0] == "setl" && a.tok.size() >= 3) { run_setl(fromhex(a.tok[1]), strtoul(a.tok[2].c_str(), nullptr, 16)); fflush(stdout); continue; }
         run(a.tok[0], fromhex(a.tok[1]));
         fflush(stdout);
     }
